@@ -49,6 +49,8 @@ __CPROVER_assigns(vf_g.cmp)
 __CPROVER_ensures(__CPROVER_return_value == VF_SIGN(vf_bn_val(*a), vf_bn_val(*b)))
 __CPROVER_ensures(vf_n_cmp == __CPROVER_old(vf_n_cmp) + 1u && vf_cmp_a == VF_ID(a) && vf_cmp_b == VF_ID(b) &&
     vf_cmp_r == __CPROVER_return_value)
+__CPROVER_ensures(vf_cmp_r0 == ((__CPROVER_old(vf_n_cmp) == 0) ? __CPROVER_return_value : __CPROVER_old(vf_cmp_r0)) &&
+    vf_cmp_r1 == ((__CPROVER_old(vf_n_cmp) == 1) ? __CPROVER_return_value : __CPROVER_old(vf_cmp_r1)))
 ;
 static inline int
 bn_is_equal(bn_p a, bn_p b)
@@ -151,6 +153,7 @@ __CPROVER_requires(VF_ECBN_RW(bn) && VF_ECBN_R(m) && bn != m)
 __CPROVER_assigns(VF_BN_FRAME(bn))
 __CPROVER_assigns(VF_EC_STATUS_ASSIGNS, vf_g.mult_digit)
 __CPROVER_ensures(VF_EC_STATUS_ENSURES)
+__CPROVER_ensures(vf_n_mult_digit3 == __CPROVER_old(vf_n_mult_digit3) + ((n == 3) ? 1u : 0u))
 __CPROVER_ensures(vf_n_mult_digit == __CPROVER_old(vf_n_mult_digit) + 1u && vf_mult_digit_d == n &&
     vf_mult_digit_bn == VF_ID(bn) && vf_mult_digit_m == VF_ID(m))
 __CPROVER_ensures(__CPROVER_return_value == 0 ==> (vf_bn_wf(*bn) && vf_bn_val(*bn) < vf_bn_val(*m)))
@@ -216,6 +219,21 @@ __CPROVER_ensures(__CPROVER_return_value == 0 ==> (vf_bn_wf(*bn) && vf_bn_val(*b
     (vf_bn_val(__CPROVER_old(*bn)) == 0 || vf_bn_val(*bn) != 0)))
 ;
 
+/* halving in the doubling formulas: y2 += p (if odd); y2 >>= 1 */
+static inline int
+bn_add(bn_p bn, bn_p n, bn_digit_t *carry)
+__CPROVER_requires(VF_ECBN_RW(bn) && VF_ECBN_R(n) && carry == NULL)
+__CPROVER_assigns(VF_BN_FRAME(bn))
+__CPROVER_assigns(VF_EC_STATUS_ASSIGNS)
+__CPROVER_ensures(VF_EC_STATUS_ENSURES)
+__CPROVER_ensures(__CPROVER_return_value == 0 ==> vf_bn_wf(*bn))
+;
+static inline void
+bn_r_shift(bn_p bn, size_t bits)
+__CPROVER_requires(VF_ECBN_RW(bn) && (bn->digits == 0 || bits < bn->digits * BN_DIGIT_BITS))
+__CPROVER_assigns(VF_BN_FRAME(bn))
+__CPROVER_ensures(vf_bn_wf(*bn))
+;
 /* plain arithmetic used by ec_point_is_inverse / ec_curve_validate */
 static inline int
 bn_sub(bn_p bn, bn_p n, bn_digit_t *borrow)
